@@ -370,10 +370,10 @@ def _interference(prop, tot, nseeds):
     g = lambda k: tot.get(k, 0)
     pre = lambda p: sum(v for k, v in tot.items() if k.startswith(p))
     if prop == "C07":
-        return {"chained-receiver": g("chained"), "switch-to-copy": g("switched"), "deepcopy-then-diverge (copies observed at another t)": g("copies_diverged_observed"), "exception-path (queries that raise, compared by class)": g("exception_path_queries"), "return-to-earlier-position": g("I4_round_trips"), "hash-order (distinct PYTHONHASHSEED values)": nseeds, "moves": g("op:MOVE")}
+        return {"chained-receiver": g("chained"), "switch-to-copy": g("switched"), "deepcopy-then-diverge (copies observed at another t)": g("copies_diverged_observed"), "exception-path (queries that raise, compared by class)": g("exception_path_queries"), "return-to-earlier-position": g("I4_round_trips"), "superseded handles observed": g("observations_of_superseded_handles"), "self-overlap moves": g("move_kind:self_overlap"), "unit-axis moves on the small-integer family": g("move_kind:unit_axis"), "hash-order (distinct PYTHONHASHSEED values)": nseeds, "moves": g("op:MOVE")}
     if prop == "C19":
-        return {"config-change (setter calls)": pre("setter:"), "config-change between construction and check (asserted pairs)": g("J2_pairs_built_under_other_config"), "excursions (leave and restore a configuration)": g("excursions_completed"), "in-place move under non-default configuration": g("pairs_moved"), "non-power-of-ten settings": g("setter:set_eps(nonpower)"), "hash-order (distinct PYTHONHASHSEED values)": nseeds}
-    return {"alias-mutation (in-place mutations)": g("op:MUTATE"), "alias-mutation of a leaf with live dependents": g("mutations_of_leaf_with_live_dependents"), "exception-path (raising queries bracketed by snapshots)": g("raising_queries"), "cold replays (history erased)": g("cold_replays"), "re-asks": g("K3_reasks"), "deep copies": g("op:DEEPCOPY"), "hash-order (distinct PYTHONHASHSEED values)": nseeds}
+        return {"config-change (setter calls)": pre("setter:"), "config-change between construction and check (asserted pairs)": g("J2_pairs_built_under_other_config"), "excursions (leave and restore a configuration)": g("excursions_completed"), "in-place move under non-default configuration": g("pairs_moved"), "non-power-of-ten settings": g("setter:set_eps(nonpower)"), "who-runs: setter or check executed in a helper thread": g("executed_in:thread"), "who-runs: setter or check executed in a copied context": g("executed_in:context"), "large bodies built between checks": g("big_builds"), "hash-order (distinct PYTHONHASHSEED values)": nseeds}
+    return {"alias-mutation (in-place mutations)": g("op:MUTATE"), "alias-mutation of a leaf with live dependents": g("mutations_of_leaf_with_live_dependents"), "exception-path (raising queries bracketed by snapshots)": g("raising_queries"), "cold replays (history erased)": g("cold_replays"), "re-asks": g("K3_reasks"), "deep copies": g("op:DEEPCOPY"), "internal edits through public attributes": pre("mutate:ConvexPolygon:internal") + pre("mutate:ConvexPolyhedron:internal") + pre("mutate:Segment:internal") + pre("mutate:HalfLine:internal") + pre("mutate:Line:internal") + pre("mutate:Plane:internal"), "move return values kept in the heap (K6)": g("K6_checks"), "hash-order (distinct PYTHONHASHSEED values)": nseeds}
 
 
 def _cells(tot):
